@@ -106,9 +106,36 @@ def run(ctx):
     rep.rule('R10.7', 'QemuImgInfo._extract_details: virtual_size, disk_size '
              'and cluster_size all go through _extract_bytes (None / '
              'unavailable -> 0)')
+    rep.rule('R10.8', 'string_to_bytes answers the same whatever was '
+             'converted before (no state shared between calls)')
     _tables(ctx)
     _table(ctx)
     _qemu(ctx)
+    _history(ctx)
+
+
+def _history(ctx):
+    from ..core.table import history_compare
+    rep, world = ctx.report, ctx.world
+    f = world.func('strutils', 'string_to_bytes')
+
+    def setup(interp):
+        from ..core import rxmodel
+        rxmodel.install(interp)
+    pairs = [(('5KiB', 'IEC'), ('5KiB', 'SI')), (('2kB', 'SI'), ('2kB', 'IEC')),
+             (('7kib', 'mixed'), ('7kib', 'IEC')),
+             (('1Kb', 'IEC'), ('1Kb', 'IEC')), (('bad', 'IEC'), ('1B', 'IEC')),
+             (('1Kib', 'IEC'), ('1KiB', 'IEC')),
+             (('1.5MB', 'SI'), ('1.5MB', 'mixed'))]
+    for ri in (False, True):
+        for a, b in pairs:
+            history_compare(
+                rep, 'R10.8', 'string_to_bytes[after an earlier call]',
+                world, lambda i: f,
+                ([K(a[0])], {'unit_system': K(a[1]), 'return_int': K(ri)}),
+                ([K(b[0])], {'unit_system': K(b[1]), 'return_int': K(ri)}),
+                setup=setup,
+                label='%r/%s then %r/%s, return_int=%s' % (a + b + (ri,)))
 
 
 def _tables(ctx):
